@@ -906,6 +906,40 @@ for _n in TRACKED:
     SOURCES[_n] = _mk_tracked(_n)
 
 
+def _scribble(v):
+    """Overwrite a constructor input in place, the way a caller that goes on using its own arrays would."""
+    if isinstance(v, np.ndarray):
+        if v.dtype.kind == "f":
+            v[...] = v * 0.5 + 0.25
+        elif v.dtype.kind in "iu" and v.ndim >= 1 and v.shape[0] > 1:
+            v[...] = v[::-1].copy()
+        return
+    if isinstance(v, list):
+        for i, x in enumerate(v):
+            if isinstance(x, (list, np.ndarray)):
+                _scribble(x)
+            elif isinstance(x, float):
+                v[i] = x * 0.5 + 0.25
+        return
+    if hasattr(v, "variables"):  # the caller's xarray dataset
+        for n in list(v.variables):
+            try:
+                _scribble(v[n].values)
+            except Exception:  # noqa: read-only or scalar variables
+                pass
+        v.attrs["edited_by_caller"] = True
+
+
+def edit_inputs(grid):
+    ent = getattr(grid, "_verif_inputs", None)
+    if ent is None:
+        return False
+    inp, _ = ent
+    for v in inp.values():
+        _scribble(v)
+    return True
+
+
 def inputs_changed(grid):
     """Names of the constructor inputs of `grid` whose contents differ from what they were
     right before construction."""
